@@ -98,7 +98,7 @@ def minimise(prop, scen, target_sig, pool, budget_s=120.0):
 
     def fails(candidate):
         res = run_seed(prop, candidate['seed'], 0, replay=candidate)
-        return any(v['signature'] == target_sig and v['property'] == prop for v in res['violations'])
+        return any(v['signature'] == target_sig for v in res['violations'])
 
     def fails_many(cands):
         futs = [pool.submit(run_seed, prop, c['seed'], 0, c) for c in cands]
@@ -106,7 +106,7 @@ def minimise(prop, scen, target_sig, pool, budget_s=120.0):
         for f in futs:
             try:
                 r = f.result(timeout=300)
-                out.append(any(v['signature'] == target_sig and v['property'] == prop for v in r['violations']))
+                out.append(any(v['signature'] == target_sig for v in r['violations']))
             except Exception:  # noqa
                 out.append(False)
         return out
